@@ -85,7 +85,7 @@ def run(chk, facts_dir, tier):
             raise Inconclusive("%s: no Ok return" % path)
         if missing:
             chk.fail("R17.1", path, "ok-without-crc", "a record can be returned as Ok on a path that does not pass a successful checksum comparison (%d checksum gates in the function)" % len(gates), b,
-                     b.stmts(missing[0])[0]["line"] if b.stmts(missing[0]) else None)
+                     next((x.get("line") for x in b.stmts(missing[0]) if x.get("line")), b.term(missing[0]).get("line")))
         else:
             chk.ok("R17.1", "%s: every Ok return passes a checksum gate (%d gates)" % (path.split("::")[-1], len(gates)), b.where())
         # the failing edge must produce Crc32cMismatch
